@@ -374,6 +374,43 @@ def _osetattr(I, args, kwargs):
     return None
 
 
+import copy as _copy
+
+
+@model(_copy.deepcopy, "copy.deepcopy: a structurally equal copy sharing nothing mutable (records, lists, dicts, sets)")
+def _deepcopy(I, args, kwargs):
+    memo = {}
+
+    def cp(v):
+        if id(v) in memo:
+            return memo[id(v)]
+        if isinstance(v, SObj):
+            if issubclass(v.cls, str):
+                return v
+            n = SObj(v.cls, {})
+            memo[id(v)] = n
+            n.fields = {k: cp(x) for k, x in v.fields.items()}
+            return n
+        if isinstance(v, STuple):
+            return STuple([cp(x) for x in v.items])
+        if isinstance(v, SList):
+            n = SList()
+            memo[id(v)] = n
+            n.items = [cp(x) for x in v.items]
+            return n
+        if isinstance(v, SDict):
+            n = SDict({}, v.rest, v.rest_maps, v.rest_dom)
+            memo[id(v)] = n
+            n.items = {k: cp(x) for k, x in v.items.items()}
+            return n
+        if isinstance(v, SSet):
+            n = SSet(v.items)
+            n.__dict__.update({k: list(x) for k, x in v.__dict__.items() if k == "absorbed"})
+            return n
+        return v
+    return cp(args[0])
+
+
 @model(typing.cast, "typing.cast(T, x) returns x")
 def _cast(I, args, kwargs):
     return args[1]
@@ -736,6 +773,18 @@ def call_method(I, recv, name, args, kwargs):
         return SDictItems(recv)
     if isinstance(recv, SDict) and recv.rest is not None and name in ("keys", "values"):
         raise Unsupported("keys()/values() of a dict with symbolic remainder")
+    if isinstance(recv, SDict) and recv.rest is None and name in ("get", "pop") and args and isinstance(args[0], (SStr, SV)) \
+            and all(isinstance(k, str) for k in recv.items):
+        # concrete string keys, symbolic lookup key: case split on equality
+        kt = I.to_str_term(args[0]) if isinstance(args[0], SStr) else I.to_str_term(I.view(args[0]))
+        for k in list(recv.items):
+            if I.branch(kt == z3.StringVal(k)):
+                return recv.items.pop(k) if name == "pop" else recv.items[k]
+        if len(args) > 1:
+            return args[1]
+        if name == "pop":
+            I.raise_(KeyError, "key")
+        return kwargs.get("default")
     if isinstance(recv, SDict):
         if name == "get":
             k = I.hashable(args[0])
